@@ -47,7 +47,7 @@ pub struct Session {
     pub stdin: String,
 }
 
-pub fn sessions(g: &str, i: &str, rule: &str, bps: &[&str], conts: usize) -> Vec<Session> {
+pub fn sessions(g: &str, i: &str, rule: &str, bps: &[&str], conts: usize, direct: Option<&str>) -> Vec<Session> {
     let c = "c\n".repeat(conts);
     let opt = |k: &str, v: &str| vec![k.to_string(), v.to_string()];
     let mut bopts: Vec<String> = vec![];
@@ -57,7 +57,13 @@ pub fn sessions(g: &str, i: &str, rule: &str, bps: &[&str], conts: usize) -> Vec
     let typed_b: String = bps.iter().map(|b| format!("b {b}\n")).collect();
     let nu = vec!["--no-update".to_string()];
     let cat = |parts: &[&Vec<String>]| parts.iter().flat_map(|p| p.iter().cloned()).collect::<Vec<String>>();
-    vec![
+    let mut v = vec![];
+    // `id <text>`: the input given directly on the command line (single-line inputs)
+    if let Some(text) = direct {
+        v.push(Session { form: "typed commands, input by id", args: nu.clone(), stdin: format!("g {g}\n{typed_b}id {text}\nr {rule}\n{c}") });
+        v.push(Session { form: "option -g, typed id / b / r", args: cat(&[&nu, &opt("-g", g)]), stdin: format!("id {text}\n{typed_b}r {rule}\n{c}") });
+    }
+    v.extend(vec![
         Session { form: "options: -g -i -b -r", args: cat(&[&nu, &opt("-g", g), &opt("-i", i), &bopts, &opt("-r", rule)]), stdin: c.clone() },
         Session { form: "options: -r -b -i -g", args: cat(&[&opt("-r", rule), &bopts, &opt("-i", i), &opt("-g", g), &nu]), stdin: c.clone() },
         Session { form: "options: -b -r -g -i (long names)", args: cat(&[&bps.iter().flat_map(|b| opt("--breakpoint", b)).collect(), &opt("--rule", rule), &opt("--grammar", g), &opt("--input", i), &nu]), stdin: c.clone() },
@@ -65,7 +71,8 @@ pub fn sessions(g: &str, i: &str, rule: &str, bps: &[&str], conts: usize) -> Vec
         Session { form: "typed commands (long verbs)", args: nu.clone(), stdin: format!("grammar {g}\ninput {i}\n{}run {rule}\n{}", bps.iter().map(|b| format!("breakpoint {b}\n")).collect::<String>(), "continue\n".repeat(conts)) },
         Session { form: "options -g -i, typed b / r", args: cat(&[&nu, &opt("-g", g), &opt("-i", i)]), stdin: format!("{typed_b}r {rule}\n{c}") },
         Session { form: "options -g -i -b, typed r", args: cat(&[&nu, &opt("-g", g), &opt("-i", i), &bopts]), stdin: format!("r {rule}\n{c}") },
-    ]
+    ]);
+    v
 }
 
 pub fn run(bin: &std::ffi::OsStr, s: &Session) -> Result<String, String> {
@@ -86,7 +93,9 @@ pub fn check(bin: &std::ffi::OsStr, dir: &std::path::Path, name: &str, grammar: 
         None => want.push(Shown::Eof),
         Some(text) => want.extend(parse_stdout(text).into_iter().filter(|x| matches!(x, Shown::Error(_)))),
     }
-    for s in sessions(g.to_str().unwrap(), i.to_str().unwrap(), rule, bps, hits.len()) {
+    // `id` takes the rest of the line: usable when the input is one line without trailing blanks
+    let direct = if !input.contains('\n') && !input.contains('\r') && input.trim_end() == input && !input.is_empty() { Some(input) } else { None };
+    for s in sessions(g.to_str().unwrap(), i.to_str().unwrap(), rule, bps, hits.len(), direct) {
         stats.inc("evaluations");
         stats.inc("distinct_nontrivial");
         stats.inc("cli_sessions");
